@@ -1,7 +1,8 @@
 """Translator plugin (C12): the constants of btclib/script/taproot.py the theorems mention.
 
 Read off the AST of the *current* source on every run:
-  * the BIP341 tag of every `tagged_hash` call, per function (leaf / branch / tweak), and that the
+  * the BIP341 tag of every `tagged_hash` call, per function (leaf / branch / tweak; branch = `_subtree_helper`, which `tree_helper` starts at depth 0
+    and which refuses `depth > MAX_TREE_DEPTH` before anything else), and that the
     two branch-hash sites and the three tweak sites agree;
   * `MAX_TREE_DEPTH`, the control-block layout numbers (33 head, 32 per node) from the guards of
     `check_output_pubkey`, the leaf-version mask (0xFE at all three sites) and the parity mask (1);
@@ -47,7 +48,7 @@ def _blit(b):
 
 def constants():
     leaf = _tags(taproot.leaf_hash)
-    branch = _tags(taproot.tree_helper)
+    branch = _tags(taproot._subtree_helper)
     tweak = _tags(taproot._tap_tweak)
     chk = _tags(taproot.check_output_pubkey)
     if len(leaf) != 1 or len(branch) != 1 or len(tweak) != 1:
@@ -72,7 +73,15 @@ def constants():
     if "if k < e:" not in c or "k = tagged_hash(b'TapBranch', k + e)" not in c.replace('"', "'") \
             or "k = tagged_hash(b'TapBranch', e + k)" not in c.replace('"', "'"):
         raise ValueError("taproot: merkle fold comparison of unexpected shape")
-    t = _src(taproot.tree_helper)
+    # tree_helper is the walk started at depth 0; the walk itself (depth guard first, then the node shapes, then
+    # the two recursive calls one level down) is _subtree_helper
+    if "return _subtree_helper(script_tree, 0)" not in _src(taproot.tree_helper) or _tags(taproot.tree_helper):
+        raise ValueError("taproot: tree_helper is no longer `_subtree_helper(script_tree, 0)`")
+    t = _src(taproot._subtree_helper)
+    if not re.search(r'"""\n    if depth > MAX_TREE_DEPTH:\n(?:        .*\n)*?        raise BTClibValueError', t) \
+            or len(re.findall(r"_subtree_helper\(cast\('TaprootScriptTree', script_tree\[[01]\]\), depth \+ 1\)",
+                              t.replace('"', "'").replace("\n", " "))) != 2:
+        raise ValueError("taproot: _subtree_helper depth guard / recursive calls of unexpected shape")
     if "if right_h < left_h:" not in t or "left_h, right_h = (right_h, left_h)" not in t \
             or "left_h + right_h" not in t:
         raise ValueError("taproot: tree_helper sibling sort of unexpected shape")
